@@ -198,6 +198,25 @@ def mutable_defaults(model: Model, fn: FunctionInfo) -> list[Lint]:
     return out
 
 
+def bisect_unsorted(model: Model, fn: FunctionInfo) -> list[Lint]:
+    """Binary search over a sequence for which the package keeps no sortedness invariant: the
+    converter's record list (add_record appends) and the synonym lists of a Record (only _merge
+    and add_prefix sort them; the loaders and the constructor keep the given order)."""
+    out: list[Lint] = []
+    for n in ast.walk(fn.node):
+        if not isinstance(n, ast.Call):
+            continue
+        name = ast.unparse(n.func)
+        if not (name.startswith("bisect.") or name in ("bisect_left", "bisect_right", "bisect", "insort", "insort_left", "insort_right")):
+            continue
+        if not n.args:
+            continue
+        seq = ast.unparse(n.args[0])
+        if seq.endswith(".records") or seq.endswith("_synonyms") or seq.endswith("._all_prefixes") or seq.endswith("._all_uri_prefixes"):
+            out.append(Lint("bisect-unsorted", fn, n.lineno, seq.rsplit(".", 1)[-1], f"`{name}({seq}, ...)`: binary search over `{seq}`, which is not kept sorted (add_record appends new records at the end; synonym lists are sorted only by _merge / add_prefix): present entries are missed or the wrong one is hit"))
+    return out
+
+
 def scan(model: Model, files: set[str] | None = None) -> tuple[list[Lint], int]:
     """All lints for the functions defined in ``files`` (relative paths under src/curies; None = everything)."""
     out: list[Lint] = []
@@ -208,4 +227,5 @@ def scan(model: Model, files: set[str] | None = None) -> tuple[list[Lint], int]:
         n += 1
         out += one_shot_reuse(model, fn)
         out += mutable_defaults(model, fn)
+        out += bisect_unsorted(model, fn)
     return out, n
